@@ -148,6 +148,27 @@ func (c *Component) startTunnelRunner(t *Tunnel, helloInterval time.Duration) {
 	r.Start()
 }
 
+// defaultPeerReceiveWindow is the window a peer that sent no Receive
+// Window Size AVP must be assumed to have (RFC 2661 §4.4.3).
+const defaultPeerReceiveWindow = 4
+
+// applyPeerReceiveWindow limits the tunnel's send window to the Receive
+// Window Size the peer advertised in its SCCRQ / SCCRP. The control
+// channel is created before the peer's AVPs are known, so the window is
+// narrowed here, while at most our own SCCRQ is outstanding. Without it
+// the channel would keep up to its initial 16 messages in flight towards
+// a peer that said it can buffer fewer.
+func applyPeerReceiveWindow(t *Tunnel, avps []l2tppkt.AVP) {
+	if t == nil || t.Channel == nil {
+		return
+	}
+	rws := defaultPeerReceiveWindow
+	if a := l2tppkt.FindFirst(avps, 0, l2tppkt.AVPReceiveWindowSize); a != nil && len(a.Value) >= 2 {
+		rws = int(l2tppkt.DecodeUint16(a))
+	}
+	t.Channel.SetPeerWindow(rws)
+}
+
 // stopTunnelRunner ends the runner for a tunnel that has been removed.
 func (c *Component) stopTunnelRunner(peerIP net.IP, localID uint16) {
 	c.mu.Lock()
